@@ -550,6 +550,20 @@ impl Machine {
         // debug_assert!(!v.is_null());
         // debug_assert!(v.is_aligned());
         // let vs = unsafe { slice::from_raw_parts(v, size) };
+        #[cfg(feature = "verif-hooks")]
+        {
+            // a source borrowed from the stack itself must not be written through a path
+            // that grows (and may reallocate) the stack
+            let base = self.stack.as_ptr() as usize;
+            let cap_end = base + self.stack.capacity() * std::mem::size_of::<RawVal>();
+            let src = vs.as_ptr() as usize;
+            let dst_end = (self.base_pointer as i64 + offset) as usize + vs.len();
+            let len = self.stack.len();
+            crate::verif::check(
+                !(src >= base && src < cap_end && !vs.is_empty() && dst_end > len),
+                || format!("stack write grows the stack while its source aliases it dst_end={dst_end} len={len}"),
+            );
+        }
         set_vec_range(
             &mut self.stack,
             (self.base_pointer as i64 + offset) as usize,
